@@ -1,6 +1,7 @@
 """C05: produce sends each record exactly once to its partition's leader, order kept; confirmations = broker results."""
 import kproto
 from val import T, dumps
+from props import common
 from props.common import brokers, expected_code, pm, rand_bytes
 from props.c12 import xxh32
 
@@ -31,12 +32,14 @@ def make_cluster(rng):
     topics, logs = {}, {}
     for t in [b"alpha", b"beta", b"g"][:rng.randint(1, 3)]:
         n = rng.choice([1, 2, 3, 4, 6, 6])
-        topics[t] = [(-1 if rng.random() < 0.12 else rng.randint(1, nb)) for _ in range(n)]
+        dead = rng.choice([0.12] * 8 + [0.5, 1.0])       # share of leaderless partitions; 1.0: none is available
+        topics[t] = [(-1 if rng.random() < dead else rng.randint(1, nb)) for _ in range(n)]
         for p in range(n):
             if rng.random() < 0.5:
                 start = rng.choice([0, 0, 3, 1000])
                 logs[(t, p)] = [("plain", start + o, None, b"old%d" % o) for o in range(rng.randint(1, 4))]
     spec = {"brokers": brokers(nb), "topics": topics, "logs": logs}
+    common.maybe_order(rng, spec)
     if rng.random() < 0.15:
         t = rng.choice(sorted(topics))
         led = [p for p, l in enumerate(topics[t]) if l >= 0]
@@ -69,6 +72,8 @@ def rand_batch(rng, spec, ser, producer):
     names = sorted(topics)
     led = [(t, p) for t in names for p, l in enumerate(topics[t]) if l >= 0]
     n = rng.choice([1, 2, 3, 4, 5, 6, 8, 10, 12])
+    if rng.random() < 0.06:
+        n = rng.randint(33, 90)      # long batches: regrouping by sort or hash shows only beyond a few dozen records
     recs = []
     hot = rng.sample(led, min(len(led), rng.randint(1, 5))) if led else []      # partitions that get repeated records
     for _ in range(n):
